@@ -20,12 +20,23 @@ Record c15cold := mkCold {
   cold_obj : json;         (* the related object that changed *)
   cold_woken : bool }.     (* was the parent enqueued *)
 
+(* a related-object UPDATE delivered to the real handlers: the object as the informer held it and as the
+   event carried it; the handler must consider both states *)
+Record c15upd := mkUpd {
+  upd_kind : string;       (* what the generator aimed at: leave | enter | both | neither *)
+  upd_parent : json;
+  upd_answer : json;       (* what the customize hook answers for the parent *)
+  upd_old : json;
+  upd_new : json;
+  upd_woken : bool }.
+
 Record c15case := mkC15 {
   c15_cfg : ccfg;
   c15_builds : list (list c15step);
   c15_wakes : list (string * bool);     (* related object on the wire, changed -> was the parent enqueued *)
   c15_cold : list c15cold;
   c15_cold_calls : Z;                   (* customize calls for the cold parent during those probes; -1 = none ran *)
+  c15_updates : list c15upd;
   c15_flags : list string }.
 
 Definition pairs_of (evs : list ev) : list (call * answer) := map (fun e => (e_call e, e_ans e)) evs.
@@ -237,6 +248,26 @@ Definition cold_diverges (c : ccfg) (p : c15cold) : bool :=
                   | Some rules => parent_woken_by c (cold_parent p) rules [cold_obj p]
                   | None => false end)).
 
+(* property: an object that was in the related map, or is in it now, wakes the parent when it is updated *)
+Definition upd_fail (c : ccfg) (u : c15upd) : option string :=
+  match decode_customize (upd_answer u) with
+  | Some rules =>
+      let was := in_related_map_spec c (upd_parent u) rules (upd_old u) in
+      let is_ := in_related_map_spec c (upd_parent u) rules (upd_new u) in
+      if (was || is_) && negb (upd_woken u)
+      then Some ("related-object-change-does-not-wake-parent:" ++
+                 (if was && is_ then "update-stays-selected"
+                  else if was then "update-leaves-selection" else "update-enters-selection"))%string
+      else None
+  | None => None
+  end.
+
+Definition upd_diverges (c : ccfg) (u : c15upd) : bool :=
+  negb (Bool.eqb (upd_woken u)
+                 (match decode_customize (upd_answer u) with
+                  | Some rules => woken_by_update c (upd_parent u) rules (upd_old u) (upd_new u)
+                  | None => false end)).
+
 Definition C15_check (c : c15case) : verdict :=
   if negb (forallb (fun b => forallb (fun s => answers_in_domain (step_events s)) b) (c15_builds c))
   then SKIP "label syntax outside the modelled domain" else
@@ -247,9 +278,11 @@ Definition C15_check (c : c15case) : verdict :=
       | Some w => if String.eqb (fst w) "informer-handler-panicked" then PROPFAIL "panic"
                   else PROPFAIL ("related-object-change-does-not-wake-parent:" ++ fst w)%string
       | None =>
-          match first_some (cold_fail (c15_cfg c)) (c15_cold c) with
+          match orelse (first_some (cold_fail (c15_cfg c)) (c15_cold c))
+                       (first_some (upd_fail (c15_cfg c)) (c15_updates c)) with
           | Some w => PROPFAIL w
           | None =>
+          if existsb (upd_diverges (c15_cfg c)) (c15_updates c) then DIVERGE "update-event-wake" else
           if match c15_cold c with [] => false | _ => Z.ltb 1 (c15_cold_calls c) end
           then PROPFAIL "customize-asked-again-while-cached" else
           if existsb (cold_diverges (c15_cfg c)) (c15_cold c) then DIVERGE "cold-cache-wake" else
